@@ -145,36 +145,6 @@ theorem claimed_at_most_once (spec : Spec) (workers : List WState) (acts : List 
 
 /-! ## none is skipped -/
 
-theorem mem_trialsFrom (sid : Nat) (l : List TrialS) (i tid : Nat) (t : TrialS) :
-    (tid, t) ∈ trialsFrom sid l i ↔ ∃ k, tid = i + k ∧ l[k]? = some t ∧ t.study = sid := by
-  induction l generalizing i with
-  | nil => simp [trialsFrom]
-  | cons a r ih =>
-    simp only [trialsFrom]
-    split
-    · rename_i ha
-      simp only [List.mem_cons, Prod.mk.injEq, ih]
-      constructor
-      · rintro (⟨h1, h2⟩ | ⟨k, hk, hget, hs⟩)
-        · exact ⟨0, by omega, by simp [h2], by subst h2; simpa using ha⟩
-        · exact ⟨k + 1, by omega, by simpa using hget, hs⟩
-      · rintro ⟨k, hk, hget, hs⟩
-        cases k with
-        | zero => left; simp at hget; exact ⟨by omega, hget.symm⟩
-        | succ k => right; exact ⟨k, by omega, by simpa using hget, hs⟩
-    · rename_i ha
-      rw [ih]
-      constructor
-      · rintro ⟨k, hk, hget, hs⟩
-        exact ⟨k + 1, by omega, by simpa using hget, hs⟩
-      · rintro ⟨k, hk, hget, hs⟩
-        cases k with
-        | zero =>
-          simp at hget
-          subst hget
-          exact absurd (by simpa using hs) ha
-        | succ k => exact ⟨k, by omega, by simpa using hget, hs⟩
-
 /-- **list_complete**: the candidates a worker starts from are *all* live WAITING trials of the
 study at that instant (so a queued trial can only be passed over because somebody else took it). -/
 theorem list_complete (s : Spec) (sid tid : Nat) (t : TrialS)
